@@ -544,6 +544,17 @@ def rule_p7(ctx, F):
                 "for not newer and the stale library is loaded" % ("converted by %s in %s" % (lossy[0][1], lossy[0][0]) if lossy else "returned as `%s` instead of SystemTime" % ret[:60]))
     else:
         ctx.ok("P7", "mtime:full-precision", "mtime returns the file system's SystemTime unchanged (no conversion to seconds etc. in mtime / needs_recompile)")
+    # …and they are the times of the files' *contents*: the metadata is read through symbolic links (a source that is a
+    # link to a shared scanner is as stale as its target; the link's own time never changes when the target is edited)
+    meta = [(f.name, c.get("fn") or "") for f in chain for pt, c in f.calls() if "metadata" in (c.get("fn") or "") and "fs::" in (c.get("fn") or "")]
+    nofollow = [m for m in meta if "symlink_metadata" in m[1]] + [(f.name, c.get("fn")) for f in chain for pt, c in f.calls() if "read_link" in (c.get("fn") or "")]
+    if not meta:
+        ctx.bad("P7", "mtime:of-the-contents", "mtime / needs_recompile no longer read the files' metadata through std::fs::metadata")
+    elif nofollow:
+        ctx.bad("P7", "mtime:of-the-contents", "the modification time compared by needs_recompile is read with %s in %s, i.e. without following symbolic links: editing the target of a linked source "
+                "never makes the library look stale, and every loader reports success with the old library" % (nofollow[0][1], nofollow[0][0]))
+    else:
+        ctx.ok("P7", "mtime:of-the-contents", "the metadata is read with std::fs::metadata, which follows symbolic links (%d call(s))" % len(meta))
 
 
 def run(ctx):
